@@ -14,7 +14,7 @@ import (
 // Op is one stored-data corruption operator (DESIGN §3.1).  Offsets are reduced modulo the
 // current length when applied, so every Op is applicable to every content.
 type Op struct {
-	Kind    string `json:"k"`             // trunc | bitflip | subst | zero | dup | swap | garbage | empty
+	Kind    string `json:"k"`             // trunc | bitflip | subst | zero | dup | swap | garbage | empty | marker
 	Off     int    `json:"off,omitempty"` // byte offset
 	FromEnd bool   `json:"end,omitempty"` // Off counts back from the end
 	Len     int    `json:"len,omitempty"` // block length
@@ -88,6 +88,16 @@ func (o Op) apply(b []byte) []byte {
 			copy(out[lo:hi], out[hi:hi+l])
 			copy(out[hi:hi+l], tmp)
 		}
+	case "marker":
+		// plugin failure as a fault kind: the harness canary extractor panics (Val 0) or returns
+		// an error (Val 1) on content that carries the marker
+		m := canaryPanicMarker
+		if o.Val == 1 {
+			m = canaryErrorMarker
+		}
+		res := append([]byte(nil), out[:off]...)
+		res = append(res, "\n"+m+"\n"...)
+		return append(res, out[off:]...)
 	case "garbage":
 		l := o.Len
 		if l < 1 {
